@@ -43,10 +43,21 @@ Outcome(present, convs, c) ==
              ELSE IF c.kind \in BoundedKinds /\ c.hasmax /\ v > c.max THEN Out("invalid", "max", 0, <<>>, FALSE)
              ELSE Out("value", "", v, <<>>, c.store)
 
+(* A conversion may carry two optional flags (spec/ScalarLex.tla classifies the spelling of a value):
+     len   "lenient": the Python constructor the documentation defers to accepts the spelling and the unchanged
+           code reports v, but the spelling is not a documented/canonical one: the 400-class error is acceptable too
+     open  the decision is not modelled: the 400-class error or a value (whatever it is) *)
+IsLenient(cv) == "len" \in DOMAIN cv /\ cv.len
+IsOpen(cv)    == "open" \in DOMAIN cv /\ cv.open
+Unpinned(present, convs, c) ==
+    present /\ c.kind \notin ListKinds \cup {"has"} /\ Len(convs) > 0
+    /\ (IsLenient(convs[Len(convs)]) \/ IsOpen(convs[Len(convs)]))
+
 (* all acceptable outcomes; the first alternative of the zero-values case is Absent(c) *)
 Absent(c) == Outcome(FALSE, <<>>, c)
 Outcomes(present, zero, convs, c) ==
     IF ~zero THEN {Outcome(present, convs, c)}
+                  \cup (IF Unpinned(present, convs, c) THEN {Out("invalid", "conv", 0, <<>>, FALSE)} ELSE {})
     ELSE IF c.kind = "has" THEN {Out("value", "", 0, <<>>, FALSE), Out("value", "", 1, <<>>, FALSE)}
     ELSE IF c.kind \in ListKinds THEN {Absent(c), Out("value", "", 0, <<>>, c.store)}
     ELSE {Absent(c)}
